@@ -229,7 +229,10 @@ impl http_datagram_codec::Decoder for Decoder {
         &mut self,
         mut data: Bytes,
     ) -> http_datagram_codec::DecodeResult<Self::Datagram> {
-        while !data.is_empty() {
+        // a zero-length application name or payload is complete without further input
+        while !data.is_empty()
+            || matches!(self.state, RecvState::AppName(0) | RecvState::Payload(0))
+        {
             match self.decode_chunk_once(data) {
                 (Some(d), tail) => return http_datagram_codec::DecodeResult::Complete(d, tail),
                 (None, tail) => data = tail,
